@@ -15,10 +15,12 @@
 EXTENDS Naturals, Sequences, FiniteSets, TLC, Json, RpcSchema
 
 CONSTANTS States,      \* engine state classes
-          Panicking    \* cases whose handler panics (the claim: none)
+          PanicMethod  \* the method whose handler panics ("none": the claim; a method name: the witness)
 
 Cases == UNION {UNION {{[method |-> m, param |-> i - 1, type |-> Schema[m][i][2], class |-> c, state |-> st]
                         : c \in Classes[Schema[m][i][2]], st \in States} : i \in DOMAIN Schema[m]} : m \in DOMAIN Schema}
+
+Panicking == {c \in Cases : c.method = PanicMethod}
 
 Executing == {"eth_call", "eth_callMany", "eth_estimateGas", "eth_estimateGasMany", "brc20_balance", "brc20_deploy", "brc20_call",
               "brc20_transact", "brc20_deposit", "brc20_withdraw", "brc20_initialise"}
